@@ -2,7 +2,9 @@
 
 Small runs (a few particles, 1..50 steps) are replayed in Coq against Model/Diffusion.v draw by draw;
 point clouds (2*10^4 .. 10^6 particles) are judged statistically by the oracle only; c11_scale.py adds fixed cases at
-realistic scale (10^3 .. 2.6*10^5 particles in a step, >1000 steps, ladim.main) with independence at ALL lags.
+realistic scale (10^3 .. 2.6*10^5 particles in a step, >1000 steps, ladim.main) with independence at ALL lags;
+c11_order.py adds fixed cases in which the same set-up is ARRANGED in other legal ways (active and inactive particles
+interleaved in the state, order of rows and columns of the release file, header line or names, spellings).
 """
 from __future__ import annotations
 
@@ -11,6 +13,7 @@ import math
 
 import numpy as np
 
+import c11_order
 import c11_scale
 
 
@@ -147,6 +150,9 @@ def gen_cases(ctx):
     # first, at a fixed position and not drawn from rng: the property at realistic scale (c11_scale.py) — 1000..262145
     # particles in one step, a growing cloud, more than a thousand steps, 40000 particles through ladim.main
     out = c11_scale.scale_cases(ctx.quick)
+    # next, also fixed: the same set-up in other legal arrangements (c11_order.py) — active / inactive particles interleaved,
+    # rows and columns of the release file permuted, header line or names, spellings of times and numbers
+    out += c11_order.order_cases(ctx.quick)
     nsmall = 170 if ctx.quick else 1800
     for i in range(nsmall):
         mode = MODES[i % len(MODES)] if i < 4 * len(MODES) else rng.choice(MODES[1:5] + MODES[1:5] + MODES)
@@ -515,6 +521,10 @@ def eval_case(desc, ctx):
         return c11_scale.eval_scale(desc, ctx)
     if desc["k"] == "scalemain":
         return c11_scale.eval_scalemain(desc, ctx)
+    if desc["k"] == "order":
+        return c11_order.eval_order(desc, ctx)
+    if desc["k"] == "ordermain":
+        return c11_order.eval_ordermain(desc, ctx)
     if desc["k"] == "warmcloud":
         return eval_warmcloud(desc, ctx)
     if desc["k"] == "romsgrid":
